@@ -69,9 +69,9 @@ TraceFinish ==
                 ELSE IF Case.final.returned # S.returned THEN "final_returned"
                 \* C06: what is delivered is the k-th record, cell by cell, and the headers are the
                 \* cleaned cells of the first non-blank record
-                ELSE IF Case.final.checkLines /\ Case.final.lines # [j \in 1..Len(S.returned) |-> Case.file[S.returned[j] + 1]]
+                ELSE IF Case.final.checkLines /\ Case.final.lines # S.lines
                        THEN "final_lines"
-                ELSE IF Case.final.checkLines /\ Case.final.headers # HeadersOf(Case.file) THEN "headers"
+                ELSE IF Case.final.checkLines /\ Case.final.headers # S.st.headers THEN "headers"
                 ELSE IF Case.final.unmatched # S.unmatched THEN "final_unmatched"
                 ELSE IF ~VarsEq(Case.final.vars, NormVars(S.st.vars)) THEN "final_vars"
                 ELSE IF Case.final.valid # S.st.valid THEN "final_valid"
